@@ -33,18 +33,25 @@ Lab(s) == [a \in 1 .. Len(s) |-> s[a] + 1]
 Is(a) == l <= NEv /\ Ev.a = a
 
 SilentTrack == pc = "T" /\ DoTrack /\ UNCHANGED <<tid, l>>
-SilentFinal == pc = "F" /\ shift = 0 /\ DoFinal /\ UNCHANGED <<tid, l>>
+\* Whether the code re-runs the E step on the best centres before returning is observable (an E event or none).
+\* The trace specification accepts both and lets the REQUIREMENTS decide on what was returned, so that an
+\* implementation that always (or never needlessly) recomputes is not rejected for its shape.
+SilentFinal == /\ pc = "F" /\ pc' = "done"
+               /\ UNCHANGED <<X, K, centers, labels, dist, inertia, best, iter, shift, old, tid, l>>
 
-GE1 == Is("E") /\ pc = "E"
+\* With StopRule = "any" the specification branches after every iteration (continue / stop); the centres the E step
+\* was called with tell which branch the code took, so they are part of the GUARDS (a branch the code did not take
+\* simply dies), never a reported failure.
+GE1 == Is("E") /\ pc = "E" /\ PtSeq(Ev.centers) = centers
 TE1 == /\ GE1 /\ DoE
-       /\ Require(PtSeq(Ev.centers) = centers, T.id, "EStepUsesCurrentCentres", l, [got |-> Ev.centers, want |-> centers])
        /\ Require(pc' = "M", T.id, "FitSucceeds", l, [centres |-> centers])
        /\ (pc' = "M") => /\ Require(Lab(Ev.labels) = labels', T.id, "EStepLabelsNearest", l, [got |-> Ev.labels, want |-> labels'])
                          /\ Require(Ev.inertia = inertia', T.id, "EStepInertia", l, [got |-> Ev.inertia, want |-> inertia'])
        /\ Go
-GE2 == Is("E") /\ pc = "F" /\ shift > 0
-TE2 == /\ GE2 /\ DoFinal
-       /\ Require(PtSeq(Ev.centers) = best.centers, T.id, "FinalEStepUsesBestCentres", l, [got |-> Ev.centers, want |-> best.centers])
+GE2 == Is("E") /\ pc = "F" /\ PtSeq(Ev.centers) = best.centers /\ ~HasNaN(best.centers)
+TE2 == /\ GE2
+       /\ best' = [best EXCEPT !.labels = LabelsOf(best.centers), !.inertia = SumF(DistOf(best.centers), DOMAIN X)]
+       /\ pc' = "done" /\ UNCHANGED <<X, K, centers, labels, dist, inertia, iter, shift, old>>
        /\ (pc' = "done") => /\ Require(Lab(Ev.labels) = best'.labels, T.id, "EStepLabelsNearest", l, [got |-> Ev.labels, want |-> best'.labels])
                             /\ Require(Ev.inertia = best'.inertia, T.id, "EStepInertia", l, [got |-> Ev.inertia, want |-> best'.inertia])
        /\ Go
@@ -66,13 +73,12 @@ TMbad == /\ GMbad
                        medians |-> [c \in 1 .. K |-> IF Members(c) # {} THEN [j \in Coords |-> Median(Members(c), j)] ELSE <<>>]])
          /\ centers' = PtSeq(Ev.centers) /\ pc' = "T"
          /\ UNCHANGED <<X, K, labels, dist, inertia, best, iter, shift, old>> /\ Go
-GResult == Is("result") /\ pc = "done" /\ l = NEv
+\* which branch (continue / stop, recompute / not) the code took is settled by what it returned: guards again
+GResult == /\ Is("result") /\ pc = "done" /\ l = NEv
+           /\ PtSeq(Ev.centers) = best.centers /\ Lab(Ev.labels) = best.labels /\ Ev.inertia = best.inertia
 BadPred == {q \in 1 .. Len(Ev.probes) : Man(Pt(Ev.probes[q].x), best.centers[Ev.probes[q].pred + 1]) # MinD(best.centers, Pt(Ev.probes[q].x))}
 BadTrans == {q \in 1 .. Len(Ev.probes) : Ev.probes[q].dists # [c \in 1 .. K |-> Man(Pt(Ev.probes[q].x), best.centers[c])]}
 TResult == /\ GResult
-           /\ Require(PtSeq(Ev.centers) = best.centers, T.id, "ReturnsBestCentres", l, [got |-> Ev.centers, want |-> best.centers])
-           /\ Require(Lab(Ev.labels) = best.labels, T.id, "ReturnsBestLabels", l, [got |-> Ev.labels, want |-> best.labels])
-           /\ Require(Ev.inertia = best.inertia, T.id, "ReturnsBestInertia", l, [got |-> Ev.inertia, want |-> best.inertia])
            /\ Require(NearestLabel, T.id, "NearestLabel", l, <<>>)
            /\ Require(InertiaIsSum, T.id, "InertiaIsSum", l, <<>>)
            /\ Require(CentresInBox, T.id, "CentresInBox", l, [centres |-> best.centers])
@@ -87,9 +93,10 @@ GRaised == Is("raised") /\ l = NEv
 TRaised == /\ GRaised /\ Failed(T.id, "FitSucceeds", l, [err |-> Ev.err, centres |-> centers, pc |-> pc])
            /\ Accepted(T.id) /\ UNCHANGED allvars /\ Go
 AnyGuard == GE1 \/ GE2 \/ GM \/ GMbad \/ GResult \/ GRaised \/ GL2
-SilentEnabled == pc = "T" \/ (pc = "F" /\ shift = 0)
+SilentEnabled == pc = "T" \/ pc = "F"
 Stuck == /\ l >= 1 /\ l <= NEv /\ ~AnyGuard /\ ~SilentEnabled
-         /\ Rejected(T.id, l, [pc |-> pc, iter |-> iter, shift |-> shift, event |-> Ev.a])
+         /\ Rejected(T.id, l, [pc |-> pc, iter |-> iter, shift |-> shift, event |-> Ev.a, centres |-> centers, best |-> best.centers,
+                                got |-> IF "centers" \in DOMAIN Ev THEN Ev.centers ELSE <<>>])
          /\ l' = 0 /\ UNCHANGED <<allvars, tid>>
 TNext == /\ l >= 1 /\ l <= NEv
          /\ (TE1 \/ TE2 \/ TM \/ TMbad \/ TResult \/ TRaised \/ TL2 \/ SilentTrack \/ SilentFinal \/ Stuck)
